@@ -345,6 +345,7 @@ class Verdict:
         m = merge(results)
         for v in m["violations"]:
             self.add_violation(v, vname)
+        crashes = 0
         for r in results:
             st = r["status"]
             if st == "ok":
@@ -352,7 +353,12 @@ class Verdict:
             if st == "timeout":
                 self.inconclusive.append("%s shard %d: watchdog expired" % (label, r["shard"]))
             elif st in ("signal", "tool_report"):
-                self._crash(label, vname, tier, r)
+                crashes += 1
+                if crashes <= 2:
+                    # witness via the journaled re-run (slow under Miri / valgrind): two per run are enough
+                    self._crash(label, vname, tier, r)
+                elif not any(v.get("rule") == "memory_safety_or_abort" and v.get("variant") == vname for v in self.violations):
+                    self._crash(label, vname, tier, r)
             else:
                 self.inconclusive.append("%s shard %d: harness error rc=%s: %s" % (label, r["shard"], r.get("rc"), r.get("output", "")[-1500:]))
         s = summarize(m)
